@@ -109,6 +109,33 @@ def line_removed(before, after):
         and b'\n' not in before[:m]
 
 
+PRE_IDS = set()      # ids of the objects reachable from the inputs before the call (filled by the replay harness)
+
+
+def reach_ids(roots, limit=20000):
+    seen, stack = set(), list(roots)
+    while stack and len(seen) < limit:
+        o = stack.pop()
+        if id(o) in seen or isinstance(o, (int, float, str, bytes, bool, type(None), type)):
+            continue
+        seen.add(id(o))
+        if isinstance(o, dict):
+            stack.extend(o.keys())
+            stack.extend(o.values())
+        elif isinstance(o, (list, tuple, set, frozenset)):
+            stack.extend(o)
+        else:
+            d = getattr(o, '__dict__', None)
+            if isinstance(d, dict):
+                stack.extend(d.values())
+    return seen
+
+
+def is_fresh(v):
+    """allocated during the call: not reachable from the inputs before it"""
+    return id(v) not in PRE_IDS
+
+
 def is_callable(v): return callable(v)
 
 
